@@ -5,7 +5,7 @@
    the outcome of every task (value, error, panic).  [Inv] holds initially and is kept by every event. *)
 From Coq Require Import List NArith Bool Arith.
 Import ListNotations.
-From XetModel Require Import Gen.SfFacts Model.Singleflight Proofs.SingleflightProofs.
+From XetModel Require Import Gen.SfFacts Model.Singleflight Proofs.SingleflightProofs Proofs.SingleflightTermProofs.
 Open Scope N_scope.
 
 Theorem C20_invariant_initially : Inv sf_init.
@@ -49,6 +49,28 @@ Theorem C20_progress : forall s c, Inv s ->
   end.
 Proof. exact progress. Qed.
 
+(* liveness.  Every event -- a caller's step, a task's step, an arrival, the environment finishing a task -- decreases a
+   measure (what the callers 0..n-1 and the created calls still have to do), so every schedule of n callers is at most 14 n
+   events long: no caller can be kept spinning.  And a state in which nothing but an arrival is enabled has served every
+   caller that arrived.  Hence every maximal schedule is finite and ends with every caller holding the outcome of the one
+   task of its flight.  Outside the model: that the runtime eventually takes an enabled step, and that the supplied task
+   finishes. *)
+Theorem C20_every_event_decreases_the_measure : forall n s e s', Inv s -> ev_in n e -> sf_step s e = Some s' -> (measure n s' < measure n s)%nat.
+Proof. exact step_decreases. Qed.
+Theorem C20_schedules_are_bounded : forall n es s', Forall (ev_in n) es -> sf_run sf_init es = Some s' -> (length es <= 14 * n)%nat.
+Proof. exact schedule_from_init_bounded. Qed.
+Theorem C20_quiescent_means_everyone_served : forall s, Inv s -> quiescent s ->
+  forall c, sf_callers s c = CIdle \/ exists cid r owner, sf_callers s c = CReturned cid r owner.
+Proof. exact quiescent_all_served. Qed.
+Theorem C20_maximal_schedule_serves_everyone : forall n es s, Forall (ev_in n) es -> sf_run sf_init es = Some s -> quiescent s ->
+  (length es <= 14 * n)%nat /\
+  forall c, sf_callers s c = CIdle \/
+    exists cid r owner o, sf_callers s c = CReturned cid r owner /\ c_res (sf_calls s cid) = Some (store_of o) /\
+      r = (if owner then creator_res o else cres_of (store_of o)).
+Proof. exact maximal_schedule_serves_everyone. Qed.
+Example C20_example_history_is_maximal : exists s, sf_run sf_init ex_sf_history = Some s /\ Forall (ev_in 2) ex_sf_history /\ quiescent s.
+Proof. exact ex_history_is_maximal. Qed.
+
 (* calls on different keys do not affect each other's map entry; the owner's return ends the flight (second half of
    C20_owner_is_the_creator), so a later call on the key starts a new one *)
 Theorem C20_keys_independent : forall s e s' k', sf_step s e = Some s' ->
@@ -69,3 +91,6 @@ Print Assumptions C20_invariant_every_schedule.
 Print Assumptions C20_same_outcome.
 Print Assumptions C20_task_starts_once.
 Print Assumptions C20_progress.
+Print Assumptions C20_every_event_decreases_the_measure.
+Print Assumptions C20_schedules_are_bounded.
+Print Assumptions C20_maximal_schedule_serves_everyone.
